@@ -200,6 +200,28 @@ func keyStepFacts(fn *ssa.Function) []core.Fact {
 	}
 	seen := map[string]bool{}
 	var out []core.Fact
+	// leaf written without a branch: `return bytes.Equal(key, ln.Key), nil, nil` - "found" is the
+	// comparison itself, i.e. the found outcome is guarded by it
+	if len(blocks) == 0 {
+		for _, r := range core.Returns(fn) {
+			if len(r.Results) == 0 {
+				continue
+			}
+			if call, ok := core.RetOperand(r, 0).(*ssa.Call); ok && core.CallDesc(&call.Call).Is("bytes", "", "Equal") {
+				f := core.FactOf(core.Cond{V: call, Taken: true})
+				if f.Mentions("p1") && strings.Contains(f.String(), "recv.") && !seen[f.String()] {
+					seen[f.String()] = true
+					out = append(out, f)
+				}
+				for _, f2 := range core.FactsAt(r.Block()) {
+					if f2.Mentions("p1") && (strings.Contains(f2.String(), "recv.") || f2.Mentions("len(p1)")) && !seen[f2.String()] {
+						seen[f2.String()] = true
+						out = append(out, f2)
+					}
+				}
+			}
+		}
+	}
 	for _, b := range blocks {
 		for _, f := range core.FactsAt(b) {
 			// only guards relating the key to the node's own content or to the key's length: range
@@ -377,6 +399,19 @@ func c04RefusalsHaveAProofReason(c *core.Ctx) {
 			case *ssa.Call:
 				if core.CallDesc(&v.Call).Is("bytes", "", "Equal") && !cd.Taken {
 					reason = "hash mismatch"
+				}
+				// the comparison extracted into a helper that returns bytes.Equal(...) on every path
+				if g := v.Call.StaticCallee(); g != nil && len(g.Blocks) > 0 && !cd.Taken {
+					all := len(core.Returns(g)) > 0
+					for _, gr := range core.Returns(g) {
+						eq, isCall := core.RetOperand(gr, 0).(*ssa.Call)
+						if !isCall || !core.CallDesc(&eq.Call).Is("bytes", "", "Equal") {
+							all = false
+						}
+					}
+					if all {
+						reason = "hash mismatch (through " + g.Name() + ")"
+					}
 				}
 			case *ssa.BinOp:
 				isEntry := func(x ssa.Value) bool {
